@@ -77,17 +77,18 @@ type Op struct {
 }
 
 type Case struct {
-	Layers  [][]TarEnt `json:"layers"`
-	LI      int        `json:"li"`     // which layer the node belongs to
-	Path    string     `json:"path"`   // path of the node inside that layer ("" = root)
-	Store   string     `json:"store"`  // memory | db
-	Opaque  int        `json:"opaque"` // 0 all, 1 trusted, 2 user
-	Base    uint32     `json:"base"`
-	BSize   int64      `json:"bsize"`
-	Fetched int64      `json:"fetched"`
-	Stack   bool       `json:"stack"`          // also evaluate the stack oracle
-	Fake    *FakeTree  `json:"fake,omitempty"` // store == "fake": an arbitrary metadata tree served by an in-memory metadata.Reader
-	Ops     []Op       `json:"ops"`
+	Layers    [][]TarEnt `json:"layers"`
+	LI        int        `json:"li"`     // which layer the node belongs to
+	Path      string     `json:"path"`   // path of the node inside that layer ("" = root)
+	Store     string     `json:"store"`  // memory | db
+	Opaque    int        `json:"opaque"` // 0 all, 1 trusted, 2 user
+	Base      uint32     `json:"base"`
+	BSize     int64      `json:"bsize"`
+	Fetched   int64      `json:"fetched"`
+	Stack     bool       `json:"stack"`                // also evaluate the stack oracle
+	StackOnly bool       `json:"stack_only,omitempty"` // the case is the stack itself (Coq: SC term for Model/Overlay.v), no node history
+	Fake      *FakeTree  `json:"fake,omitempty"`       // store == "fake": an arbitrary metadata tree served by an in-memory metadata.Reader
+	Ops       []Op       `json:"ops"`
 }
 
 // FakeTree is a metadata view given directly (no tar, no TOC): it reaches children maps and ids that the real stores
@@ -573,7 +574,7 @@ func coqAttr(a metadata.Attr, mode os.FileMode) string {
 func coqObs(o Obs) string {
 	z := make([]string, len(o.Z))
 	for i, v := range o.Z {
-		z[i] = coqZ(v)
+		z[i] = fmt.Sprintf("%d", uint64(v)) // observations are unsigned (uint64 sizes and inode numbers wrap in int64)
 	}
 	s := make([]string, len(o.S))
 	for i, v := range o.S {
@@ -1133,6 +1134,7 @@ func stateProbe(n fusefs.InodeEmbedder, ol *openLayer, c Case, bad func(string, 
 // stack oracle: overlayfs merge of the served trees == OCI application of the tars
 
 type tnode struct {
+	Mode   uint32 // full st_mode
 	Kind   string // d f l c b p s(ocket) w(hiteout, served trees only)
 	Perm   uint32 // mode without the type bits
 	UID    uint32
@@ -1196,7 +1198,7 @@ func crawl(n fusefs.InodeEmbedder, c Case, isRoot bool, r *hx.Rng, where string,
 			inos[l.attr.Ino] = id
 		}
 		a := l.gattr
-		t := &tnode{Kind: kindOfSys(a.Mode), Perm: a.Mode &^ sIFMT, UID: a.UID, GID: a.GID, Size: a.Size, Rdev: a.Rdev, X: map[string]string{}}
+		t := &tnode{Mode: a.Mode, Kind: kindOfSys(a.Mode), Perm: a.Mode &^ sIFMT, UID: a.UID, GID: a.GID, Size: a.Size, Rdev: a.Rdev, X: map[string]string{}}
 		if t.Kind == "c" && a.Rdev == 0 {
 			t.Kind = "w" // what overlayfs takes for a whiteout
 		}
@@ -1343,7 +1345,8 @@ func applyOCI(root map[string]*tnode, ents []TarEnt) {
 			continue // parents are always explicit and earlier in the generated tars
 		}
 		k, perm := tarKindPerm(e)
-		n := &tnode{Kind: k, Perm: perm, UID: uint32(e.UID), GID: uint32(e.GID), X: map[string]string{}}
+		n := &tnode{Mode: map[string]uint32{"f": 0o100000, "d": sIFDIR, "l": 0o120000, "c": sIFCHR, "b": 0o060000, "p": 0o010000}[k] | perm,
+			Kind: k, Perm: perm, UID: uint32(e.UID), GID: uint32(e.GID), X: map[string]string{}}
 		for xk, xv := range e.X {
 			n.X[xk] = xv
 		}
@@ -1440,10 +1443,66 @@ func stackExcluded(layers [][]TarEnt) string {
 	return ""
 }
 
-func runStack(c Case, seed uint64) (problems []problem, stat string) {
-	if why := stackExcluded(c.Layers); why != "" {
-		return nil, "stack.excluded." + why
+// coqLTree prints the metadata tree below id as a Model/Overlay.v ltree.
+func coqLTree(mr metadata.Reader, id uint32, depth int) (string, bool) {
+	a, err := mr.GetAttr(id)
+	if err != nil || depth > 8 {
+		return "", false
 	}
+	kids, err := metaChildren(mr, id)
+	if err != nil {
+		return "", false
+	}
+	ks := make([]string, 0, len(kids))
+	for _, k := range kids {
+		if !printable(k.Name) {
+			return "", false
+		}
+		sub, ok := coqLTree(mr, k.ID, depth+1)
+		if !ok {
+			return "", false
+		}
+		ks = append(ks, fmt.Sprintf("(%s, %s)", coqStr(k.Name), sub))
+	}
+	return fmt.Sprintf("LT (mkEnt %d %s) %s", id, coqAttr(a, a.Mode), hx.CoqList(ks)), true
+}
+
+func encTNode(t *tnode) string {
+	if t == nil {
+		return "[]"
+	}
+	size := t.Size
+	if t.Kind == "d" {
+		size = 0
+	}
+	return fmt.Sprintf("[1; %d; %d; %d; %d; %d]", t.Mode, t.UID, t.GID, size, t.Rdev)
+}
+
+func walkPath(root map[string]*tnode, p []string) *tnode {
+	cur := root
+	var t *tnode
+	for i, comp := range p {
+		var ok bool
+		t, ok = cur[comp]
+		if !ok {
+			return nil
+		}
+		if i < len(p)-1 {
+			if t.Kind != "d" {
+				return nil
+			}
+			cur = t.Ch
+		}
+	}
+	return t
+}
+
+func runStack(c Case, seed uint64) (problems []problem, stat string, coq string) {
+	if why := stackExcluded(c.Layers); why != "" {
+		return nil, "stack.excluded." + why, ""
+	}
+	var ltrees []string
+	ltreesOK := true
 	r := hx.NewRng(seed)
 	bad := func(sig, format string, a ...any) {
 		problems = append(problems, problem{sig, fmt.Sprintf(format, a...)})
@@ -1453,11 +1512,16 @@ func runStack(c Case, seed uint64) (problems []problem, stat string) {
 	for i, l := range c.Layers {
 		b, err := buildLayer(l)
 		if err != nil {
-			return nil, "stack.skipped.build"
+			return nil, "stack.skipped.build", ""
 		}
 		ol, err := openRoot(b, c.Store, c.Opaque, c.Base+uint32(i), c.BSize, c.Fetched)
 		if err != nil {
-			return nil, "stack.skipped.open"
+			return nil, "stack.skipped.open", ""
+		}
+		if lt, ok := coqLTree(ol.mr, ol.mr.RootID(), 0); ok {
+			ltrees = append(ltrees, fmt.Sprintf("(mkCfg true %d %s, %s)", c.Base+uint32(i), []string{"OpqAll", "OpqTrusted", "OpqUser"}[c.Opaque], lt))
+		} else {
+			ltreesOK = false
 		}
 		inos := map[uint64]uint32{}
 		var t map[string]*tnode
@@ -1484,7 +1548,40 @@ func runStack(c Case, seed uint64) (problems []problem, stat string) {
 			bad("", "stack of %d layers: %s", len(c.Layers), d)
 		}
 	}
-	return problems, "stack.checked"
+	if ltreesOK {
+		// probes: every path of every layer (whiteout targets included), resolved in the Go overlay merge of the served trees
+		// and in the Go OCI application of the tars; Coq evaluates overlay_stack / oci_stack of Model/Overlay.v on the same paths
+		seen := map[string]bool{}
+		var probes []string
+		for _, l := range c.Layers {
+			for _, e := range l {
+				comps := strings.Split(e.P, "/")
+				last := comps[len(comps)-1]
+				if strings.HasPrefix(last, whPrefix) && last != opqMarker {
+					comps[len(comps)-1] = last[len(whPrefix):]
+				}
+				okp := true
+				for _, cc := range comps {
+					okp = okp && cc != "" && cc != "." && cc != ".." && !strings.HasPrefix(cc, whPrefix)
+				}
+				if comps[0] == estargz.PrefetchLandmark || comps[0] == estargz.NoPrefetchLandmark || comps[0] == stateDir {
+					okp = false
+				}
+				key := strings.Join(comps, "/")
+				if !okp || seen[key] {
+					continue
+				}
+				seen[key] = true
+				cs := make([]string, len(comps))
+				for i, cc := range comps {
+					cs[i] = coqStr(cc)
+				}
+				probes = append(probes, fmt.Sprintf("(%s, %s, %s)", hx.CoqList(cs), encTNode(walkPath(merged, comps)), encTNode(walkPath(image, comps))))
+			}
+		}
+		coq = fmt.Sprintf("SC %s %s", hx.CoqList(ltrees), hx.CoqList(probes))
+	}
+	return problems, "stack.checked", coq
 }
 
 // ---------------------------------------------------------------------------------------------
@@ -1814,6 +1911,28 @@ func main() {
 		}
 	}()
 	emit := func(c Case) {
+		stackSeed := func() uint64 {
+			h := sha256.Sum256([]byte(fmt.Sprint(c.Layers, c.Store, c.Opaque)))
+			return uint64(h[0]) | uint64(h[1])<<8 | ctx.Seed<<16
+		}
+		if c.StackOnly {
+			sp, st, sc := runStack(c, stackSeed())
+			ctx.Count(st)
+			if sc == "" {
+				return
+			}
+			id := ctx.Case(sc, c, sc, true)
+			ncases++
+			ctx.Count("stack.coq-case")
+			for _, p := range sp {
+				if p.sig != "" {
+					ctx.Finding(id, p.sig, p.what, nil)
+				} else {
+					ctx.Violation(id, p.what, nil)
+				}
+			}
+			return
+		}
 		res := runNode(c)
 		if res.skipped != "" {
 			ctx.Count("skipped." + strings.SplitN(res.skipped, ":", 2)[0])
@@ -1821,10 +1940,9 @@ func main() {
 			return
 		}
 		var sp []problem
-		if c.Stack {
-			h := sha256.Sum256([]byte(fmt.Sprint(c.Layers, c.Store, c.Opaque)))
+		if c.Stack { // (older replays: the stack oracle rides on a node case)
 			var st string
-			sp, st = runStack(c, uint64(h[0])|uint64(h[1])<<8|ctx.Seed<<16)
+			sp, st, _ = runStack(c, stackSeed())
 			ctx.Count(st)
 		}
 		for _, s := range res.stats {
@@ -1852,7 +1970,7 @@ func main() {
 			kinds[s] = true
 		}
 		nontrivial := len(kinds) >= 4
-		id := ctx.Case(res.coq, c, res.coq, nontrivial)
+		id := ctx.Case("NC "+res.coq, c, res.coq, nontrivial)
 		ncases++
 		seen := map[string]bool{}
 		for _, p := range append(res.problems, sp...) {
@@ -1901,15 +2019,15 @@ func main() {
 		}
 		base := Case{Layers: layers, Store: []string{"memory", "db"}[g.Intn(2)], Opaque: g.Intn(3), Base: uint32(g.Pick(3, 3, 1) * g.Range(1, 70000)),
 			BSize: int64(g.Range(1, 1<<20)), Fetched: int64(g.Intn(1 << 16))}
-		first := true
+		sc := base
+		sc.StackOnly = true
+		emit(sc)
 		for li, l := range layers {
 			for _, d := range layerDirs(l) {
 				c := base
 				c.LI, c.Path = li, d
 				c.Store = []string{"memory", "db"}[g.Intn(2)]
 				c.Opaque = g.Intn(3)
-				c.Stack = first
-				first = false
 				c.Ops = genOps(g, c, true)
 				emit(c)
 			}
@@ -1949,6 +2067,8 @@ func corpus() []Case {
 			Ops: []Op{rd, {Op: "state"}, lk(estargz.NoPrefetchLandmark, false), lk("b", true), lk("f", true), lk("b", false), lk("f", false), lk(stateDir, false), {Op: "getxattr", Name: "user.overlay.opaque", Dlen: 8}}},
 		{Layers: [][]TarEnt{lower, upper}, LI: 1, Path: "a/c", Store: "memory", Opaque: 0, Base: 65536, BSize: 5, Fetched: 0,
 			Ops: []Op{{Op: "getxattr", Name: "trusted.overlay.opaque", Dlen: 0}, {Op: "getxattr", Name: "trusted.overlay.opaque", Dlen: 1}, {Op: "getxattr", Name: "user.overlay.opaque", Dlen: 9}, {Op: "listxattr", Dlen: 0}, {Op: "listxattr", Dlen: 100}, rd, lk(opqMarker, false), lk("e", false)}},
+		{Layers: [][]TarEnt{lower, upper}, Store: "db", Opaque: 1, Base: 20, BSize: 1, Fetched: 0, StackOnly: true},
+		{Layers: [][]TarEnt{lower, upper, lower}, Store: "memory", Opaque: 2, Base: 4000000000, BSize: 1, Fetched: 0, StackOnly: true},
 		// names beginning with .wh. that are not plain whiteouts
 		{Layers: [][]TarEnt{odd}, LI: 0, Path: "a", Store: "db", Opaque: 1, Base: 3, BSize: 9, Fetched: 1, Stack: true,
 			Ops: []Op{rd, lk(whPrefix+"f", false), lk("", false), lk("g", true), lk("g", false)}},
